@@ -413,6 +413,16 @@ fn hostile_stream(class: usize, rng: &mut Rng) -> (Vec<u8>, String) {
             }
             (b, "csid-form-edges".into())
         }
+        9 | 10 => {
+            // a VALID foreign stream (class 9: interleaved messages with size changes in flight; class 10: one message at a time,
+            // all csid forms): robustness is quantified over every byte sequence - the conformant ones included
+            let t = Trace::create("/dev/null");
+            let mut run = crate::chunk::Run::new(&t, "fixed", false);
+            let lim = crate::chunk::Limits { max_len: 3000, max_chunks: 6 };
+            let n = rng.range(2, 14) as usize;
+            crate::chunk::run_foreign(&mut run, rng, n, &lim, class == 9);
+            (run.stream.clone(), if class == 9 { "valid-interleaved".into() } else { "valid-foreign".into() })
+        }
         _ => {
             // a valid library-made stream with a few byte mutations
             let mut ser = ChunkSerializer::new();
@@ -518,6 +528,40 @@ fn run_case(c: &Value) -> (String, usize, Value) {
                     }
                     b
                 }
+                "refbomb" => {
+                    // the AMF0 Reference marker (0x07, not supported by the library): arrays holding two references to the previous
+                    // complete value each - if references are ever resolved by copying, every 11-byte level doubles the result
+                    let levels = c["levels"].as_u64().unwrap_or(18) as usize;
+                    let mut b: Vec<u8> = vec![10, 0, 0, 0, 1, 5];
+                    for i in 0..levels {
+                        b.extend_from_slice(&[10, 0, 0, 0, 2, 7, (i >> 8) as u8, i as u8, 7, (i >> 8) as u8, i as u8]);
+                    }
+                    if c["kind"] == "object" {
+                        let mut o: Vec<u8> = vec![3];
+                        for i in 0..levels { o.extend_from_slice(&[0, 1, b'a' + (i % 26) as u8, 7, 0, 0]); }
+                        o.extend_from_slice(&[0, 0, 9]);
+                        b.extend(o);
+                    }
+                    b
+                }
+                "props" => {
+                    // ONE flat container with very many properties / elements of one simple kind
+                    let n = c["n"].as_u64().unwrap_or(1000) as usize;
+                    let val: Vec<u8> = match c["val"].as_str().unwrap_or("undef") {
+                        "undef" => vec![6], "null" => vec![5], "bool" => vec![1, 1], "num" => vec![0, 0, 0, 0, 0, 0, 0, 0, 0],
+                        "str" => vec![2, 0, 0], "arr" => vec![10, 0, 0, 0, 0], "obj" => vec![3, 0, 0, 9], _ => vec![0x0D],
+                    };
+                    let mut b = Vec::with_capacity(n * (val.len() + 4) + 16);
+                    match c["kind"].as_str().unwrap_or("object") {
+                        "array" => { b.push(10); b.extend_from_slice(&(n as u32).to_be_bytes()); for _ in 0..n { b.extend_from_slice(&val); } }
+                        kind => {
+                            if kind == "ecma" { b.push(8); b.extend_from_slice(&(n as u32).to_be_bytes()); } else { b.push(3); }
+                            for i in 0..n { b.extend_from_slice(&[0, 2, b'a' + (i % 26) as u8, b'a' + ((i / 26) % 26) as u8]); b.extend_from_slice(&val); }
+                            b.extend_from_slice(&[0, 0, 9]);
+                        }
+                    }
+                    b
+                }
                 "longname" => {
                     // a property name of 60..70 bytes with a multi-byte character at a chosen position, then the end of the input
                     // or an end marker / a value: error paths that quote the name must not cut it inside a character
@@ -570,6 +614,51 @@ fn run_case(c: &Value) -> (String, usize, Value) {
             let n = bytes.len();
             (decode_on_small_stack(bytes), n)
         }
+        "amfrepeat" => {
+            // one small-stack thread decodes the same failing input over and over
+            let depth = c["depth"].as_u64().unwrap_or(1000) as usize;
+            let times = c["times"].as_u64().unwrap_or(100) as usize;
+            extra = json!({"class": format!("amfrepeat:{}:{}", depth, times)});
+            let bytes = pump(b"A", depth);
+            let n = bytes.len();
+            let h = std::thread::Builder::new().stack_size(2 << 20).spawn(move || {
+                let mut last = "ok";
+                for _ in 0..times {
+                    let mut c = std::io::Cursor::new(&bytes[..]);
+                    last = ok_err(rml_amf0::deserialize(&mut c).map(|_| ()).map_err(|_| ()));
+                }
+                last.to_string()
+            }).expect("spawn");
+            (match h.join() { Ok(s) => s, Err(_) => "panic:thread".to_string() }, n)
+        }
+        "amfwalk" => guard(&mut || {
+            // strings and property names of every length class, one after the other on this thread (sessions of one thread share
+            // whatever the decoder keeps between calls)
+            extra = json!({"class": format!("amfwalk:{}", c["dir"].as_str().unwrap_or("up"))});
+            let mut lens: Vec<usize> = Vec::new();
+            let mut x = 1.0f64;
+            while x < 66000.0 { lens.push(x as usize); x *= 1.19; }
+            for k in 1..=16u32 { for d in [-1i64, 0, 1].iter() { lens.push(((1i64 << k) + d) as usize); } }
+            lens.retain(|l| *l <= 65535);
+            lens.sort();
+            lens.dedup();
+            if c["dir"] == "down" { lens.reverse(); }
+            let mut total = 0usize;
+            let mut res = "ok";
+            for l in lens {
+                let mut b: Vec<u8> = vec![2, (l >> 8) as u8, l as u8];
+                b.extend(vec![b's'; l]);
+                b.extend_from_slice(&[3, (l >> 8) as u8, l as u8]);
+                b.extend(vec![b'n'; l]);
+                b.extend_from_slice(&[5, 0, 0, 9]);
+                total += b.len();
+                match rml_amf0::deserialize(&mut std::io::Cursor::new(&b[..])) {
+                    Ok(v) => { if v.len() != 2 { res = "err"; } }
+                    Err(_) => { if l > 0 { res = "err"; } }
+                }
+            }
+            (res.to_string(), total)
+        }),
         "amfseq" => guard(&mut || {
             // same thread: first a message with one long string (and a long property name), then one with many short strings;
             // only the second decode is measured
@@ -920,7 +1009,8 @@ fn run_cfg(cfg: &str, entry: &str, v: u32, n: usize) -> (String, bool) {
             ("string_len", _) => {
                 // v = 1: the same BYTE length made of two-byte characters (limits are in bytes, not characters)
                 let st = if v == 1 { "\u{e9}".repeat(n / 2) } else { "s".repeat(n) };
-                let v = vec![Amf0Value::Utf8String(st)];
+                // (a refused value sits between accepted ones: whatever was written before the refusal must not survive the call)
+                let v = vec![Amf0Value::Number(7.0), Amf0Value::Utf8String(st), Amf0Value::Boolean(true)];
                 match rml_amf0::serialize(&v) {
                     Err(_) => ("err".into(), false),
                     Ok(b) => ("ok".into(), rml_amf0::deserialize(&mut std::io::Cursor::new(b)).map(|x| x == v).unwrap_or(false)),
@@ -929,7 +1019,7 @@ fn run_cfg(cfg: &str, entry: &str, v: u32, n: usize) -> (String, bool) {
             ("name_len", _) => {
                 let mut p = HashMap::new();
                 p.insert(if v == 1 { "\u{e9}".repeat(n / 2) } else { "k".repeat(n) }, Amf0Value::Null);
-                let v = vec![Amf0Value::Object(p)];
+                let v = vec![Amf0Value::Utf8String("a".into()), Amf0Value::Object(p), Amf0Value::Null];
                 match rml_amf0::serialize(&v) {
                     Err(_) => ("err".into(), false),
                     Ok(b) => ("ok".into(), rml_amf0::deserialize(&mut std::io::Cursor::new(b)).map(|x| x == v).unwrap_or(false)),
@@ -1053,6 +1143,26 @@ pub fn cases(kind: &str, tier: &str, seed: u64) -> Vec<Value> {
                     v.push(json!({"t":"amf","shape":"longname","kind":kind,"pos":pos,"len":pos + 3,"after":"end"}));
                 }
             }
+            for kind in ["array", "object"].iter() {
+                for &levels in [4u64, 18, 30, 200].iter() {
+                    v.push(json!({"t":"amf","shape":"refbomb","kind":kind,"levels":levels}));
+                }
+            }
+            for kind in ["object", "ecma", "array"].iter() {
+                for val in ["undef", "null", "bool", "num", "str", "arr", "obj", "bad"].iter() {
+                    for &n in [1000u64, 50_000, 400_000].iter() {
+                        if !thorough && n == 400_000 && *val != "undef" && *val != "null" { continue; }
+                        v.push(json!({"t":"amf","shape":"props","kind":kind,"val":val,"n":n}));
+                    }
+                }
+            }
+            // errors must not leave anything behind either: the same too-deep / truncated input many times on one thread
+            for &(depth, times) in [(100_000u64, 3000u64), (300, 20_000)].iter() {
+                v.push(json!({"t":"amfrepeat","depth":depth,"times":times}));
+            }
+            // string and name lengths walking up (and down) through every power of two on one thread
+            v.push(json!({"t":"amfwalk","dir":"up"}));
+            v.push(json!({"t":"amfwalk","dir":"down"}));
             // what one decode leaves behind must not make the NEXT decode on the same thread expensive
             for &big in [65535u64, 1 << 20, 4 << 20].iter() {
                 v.push(json!({"t":"amfseq","big":big,"n":2000}));
@@ -1073,8 +1183,8 @@ pub fn cases(kind: &str, tier: &str, seed: u64) -> Vec<Value> {
         "hostile" => {
             let reps = if thorough { 24 } else { 1 };
             for _ in 0..reps {
-                for class in 0..9u64 {
-                    let n = if class == 8 { if thorough { 3000 } else { 400 } } else if class == 4 { 200 } else if class == 7 { 4 } else { 12 };
+                for class in 0..11u64 {
+                    let n = if class == 8 { if thorough { 3000 } else { 400 } } else if class >= 9 { if thorough { 600 } else { 120 } } else if class == 4 { 200 } else if class == 7 { 4 } else { 12 };
                     for _ in 0..n {
                         for cut in 0..3u64 {
                             if class == 3 && cut == 1 { continue; }
@@ -1137,9 +1247,9 @@ pub fn cases(kind: &str, tier: &str, seed: u64) -> Vec<Value> {
                     v.push(json!({"t":"cfg","cfg":"payload_len","entry":"ser.serialize","n":n,"value":cs}));
                 }
             }
-            for &n in [0u64, 1, 65534, 65535, 65536, 70000].iter() {
+            for &n in [0u64, 1, 65534, 65535, 65536, 3, 70000, 65535, 65537, 2].iter() {
                 v.push(json!({"t":"cfg","cfg":"string_len","entry":"amf0.serialize","n":n}));
-                v.push(json!({"t":"cfg","cfg":"name_len","entry":"amf0.serialize","n":n}));
+                v.push(json!({"t":"cfg","cfg":"name_len","entry":"amf0.serialize","n":n.max(1)}));
             }
             for &n in [2u64, 65534, 65536, 80000, 131070].iter() {
                 v.push(json!({"t":"cfg","cfg":"string_len","entry":"amf0.serialize","n":n,"value":1}));
